@@ -365,22 +365,61 @@ class Check(Property):
         return v
 
     def oracle_log(self, c):
+        """logarithmic units against the defining map x_lin = scale * logbase ** (x / logfactor), with scale, logbase and
+        logfactor read from the definition file by the independent reader: scalar and array magnitudes, functional and
+        in-place conversions, log -> linear -> log and log -> log"""
         v = []
-        import pint
+        import numpy as np
         u = regs.ureg("float", autoconvert_offset_to_baseunit=True)
-        d = u._units[c["unit"]]
-        conv = d.converter
-        ref = u.Unit(d.reference)
+        P = regs.pools()
+        rec = P.proj.unit_by_key[c["unit"]]
+        scale = float(rec["scale"]) if not isinstance(rec["scale"], regs.D.Irr) else rec["scale"].approx
+        base, fac = (float(rec["modifiers"][k]) if not isinstance(rec["modifiers"][k], regs.D.Irr) else rec["modifiers"][k].approx
+                     for k in ("logbase", "logfactor"))
+        ref = u.Unit(u._units[c["unit"]].reference)
         x = c["x"]
         tag = f"C06 log {x} {c['unit']}"
+
+        def lin_of(z):
+            return scale * math.exp(math.log(base) * (z / fac))
         try:
             lin = u.Quantity(x, c["unit"]).to(ref).magnitude
-            want = conv.scale * math.exp(math.log(conv.logbase) * (x / conv.logfactor))
+            want = lin_of(x)
             if not math.isclose(lin, want, rel_tol=1e-12):
                 v.append(f"{tag}: to reference gives {lin!r}, defining map gives {want!r}")
             back = u.Quantity(lin, ref).to(c["unit"]).magnitude
             if not math.isclose(back, x, rel_tol=1e-9, abs_tol=1e-9):
                 v.append(f"{tag}: round trip gives {back!r}")
+            # arrays, functional and in place
+            xs = [x, x + 10.0, x - 3.0]
+            wants = [lin_of(z) for z in xs]
+            qa = u.Quantity(np.array(xs), c["unit"])
+            fa = qa.to(ref).magnitude
+            qi = u.Quantity(np.array(xs), c["unit"])
+            qi.ito(ref)
+            for label, got in (("array .to", fa), ("array .ito (in place)", qi.magnitude)):
+                if not all(math.isclose(g, w, rel_tol=1e-12) for g, w in zip(got, wants)):
+                    v.append(f"{tag}: {label} of {xs} gives {list(got)!r}, defining map gives {wants!r}")
+            qi.ito(c["unit"])
+            if not all(math.isclose(g, w, rel_tol=1e-9, abs_tol=1e-9) for g, w in zip(qi.magnitude, xs)):
+                v.append(f"{tag}: in-place round trip of {xs} gives {list(qi.magnitude)!r}")
+            if list(qa.magnitude) != xs:
+                v.append(f"{tag}: .to altered its operand: {list(qa.magnitude)!r}")
+            # log -> log between units of the same reference
+            for other in LOGS:
+                if other == c["unit"] or u._units[other].reference != u._units[c["unit"]].reference:
+                    continue
+                ro = P.proj.unit_by_key[other]
+                so = float(ro["scale"]) if not isinstance(ro["scale"], regs.D.Irr) else ro["scale"].approx
+                bo, fo = (float(ro["modifiers"][k]) if not isinstance(ro["modifiers"][k], regs.D.Irr) else ro["modifiers"][k].approx
+                          for k in ("logbase", "logfactor"))
+                want_o = [fo * math.log(w / so) / math.log(bo) for w in wants]
+                go = u.Quantity(np.array(xs), c["unit"]).to(other).magnitude
+                gi = u.Quantity(np.array(xs), c["unit"])
+                gi.ito(other)
+                for label, got in ((".to", go), (".ito (in place)", gi.magnitude)):
+                    if not all(math.isclose(g, w, rel_tol=1e-9, abs_tol=1e-9) for g, w in zip(got, want_o)):
+                        v.append(f"{tag}: {label} {other} of {xs} gives {list(got)!r}, the defining maps give {want_o!r}")
         except Exception as exc:  # noqa: BLE001
             v.append(f"{tag}: raised {type(exc).__name__}: {exc}")
         return v
